@@ -34,8 +34,9 @@ pub enum K {
     SaveSpare,
     CloneFrom,
     ObsCapacity,
+    StaleInsert,
 }
-pub const NK: usize = 23;
+pub const NK: usize = 24;
 const ALLK: [K; NK] = [
     K::New,
     K::AppendValue,
@@ -60,6 +61,7 @@ const ALLK: [K; NK] = [
     K::SaveSpare,
     K::CloneFrom,
     K::ObsCapacity,
+    K::StaleInsert,
 ];
 
 #[derive(Clone, Debug)]
@@ -135,6 +137,7 @@ impl GenCfg {
             (K::SaveSpare, 0),
             (K::CloneFrom, 0),
             (K::ObsCapacity, 0),
+            (K::StaleInsert, 0),
         ];
         for (k, v) in base {
             w[k as usize] = v;
@@ -271,6 +274,9 @@ impl GenCfg {
                 set(&mut w, K::SaveSpare, 1);
                 set(&mut w, K::CloneFrom, 1);
                 set(&mut w, K::ObsCapacity, 1);
+                if prop == "C17" {
+                    set(&mut w, K::StaleInsert, 1);
+                }
                 p_io_faults = 50;
             }
         }
@@ -602,6 +608,24 @@ impl Gen {
                 Op::TreeMacro { shape, root, kbase, val }
             }
             K::RestartClone => Op::RestartClone,
+            K::StaleInsert => {
+                // a slot that has been recycled at least once, and a live partner
+                let cands: Vec<usize> = (0..m.issued.len()).filter(|s| m.issued[*s].len() >= 2 && m.slot_key[*s].is_some()).collect();
+                if cands.is_empty() || live_n == 0 {
+                    Op::ObsLookup
+                } else {
+                    let s = *rng.pick(&cands);
+                    let ord = rng.usize_below(m.issued[s].len() - 1);
+                    Op::StaleInsert {
+                        kind: *rng.pick(&KINDS),
+                        checked: rng.coin(),
+                        a: self.pick_node(rng, m, false).unwrap(),
+                        slot: s as u32 + 1,
+                        ord: ord as u32,
+                        recv: rng.coin(),
+                    }
+                }
+            }
             K::SaveSpare => Op::SaveSpare,
             K::CloneFrom => Op::CloneFrom,
             K::ObsCapacity => Op::ObsCapacity {
